@@ -101,6 +101,17 @@ def any_obj(it, name):
     return obj_with_root(it, Signal, name)
 
 
+def indexed_obj(it, name):
+    """an operand reached through a reference path with a RUN-TIME index (`vec[idx]`): reading it reads the index as well"""
+    from cohdl._core._type_qualifier import Offset
+
+    o = any_obj(it, name)
+    idx = any_obj(it, name + "_index")
+    o.fields["_ref_spec"] = [Offset(idx, [])]
+    o.fields["__index__"] = idx
+    return o
+
+
 def block(it):
     return SObj(ir.CodeBlock, _content=Opaque("statements"))
 
@@ -223,7 +234,7 @@ class StmtLoop(C.LoopSpec):
         return True
 
     def next_item(self, it, frame, st):
-        kind = it.ctx.choose(5, "stmt_kind")
+        kind = it.ctx.choose(6, "stmt_kind")
         I_, W_ = state(frame)
         it.stmt_entry_V = V(I_.term, W_.term)
         it.sub_calls = []
@@ -238,13 +249,17 @@ class StmtLoop(C.LoopSpec):
             s = block(it)
         elif kind == 2:
             has_default = it.ctx.branch(it.ctx.fresh_bool("has_default"))
-            s = SObj(ir.CaseWhen, _value=any_obj(it, "value"), _branches=Opaque("branches"), _default=block(it) if has_default else None)
+            s = SObj(ir.CaseWhen, _value=indexed_obj(it, "value"), _branches=Opaque("branches"), _default=block(it) if has_default else None)
         elif kind == 3:
             res = any_obj(it, "result")
             s = SObj(ir.Expression, _result=res, __reads__=[any_obj(it, "operand")], __refreads__=[any_obj(it, "index")], __write__=res)
-        else:
+        elif kind == 4:
             tgt = any_obj(it, "target")
             s = SObj(ir.VariableAssignment, _target=tgt, __reads__=[any_obj(it, "source")], __refreads__=[any_obj(it, "index")], __write__=tgt)
+        else:
+            # inline code (f"{vhdl[T]:...}"): its result is an intermediate defined by this statement, like the result of an expression
+            res = any_obj(it, "inline_result")
+            s = SObj(ir.InlineCode, result=res, __reads__=[any_obj(it, "inline_operand")], __refreads__=[any_obj(it, "index")], __write__=res)
         st["stmt"], st["kind"] = s, kind
         return s
 
@@ -263,8 +278,8 @@ class StmtLoop(C.LoopSpec):
                 da = EMPTY if not subs else None
             elif len(subs) == 1:
                 da = zite(first, subs[0], z3.SetIntersect(gall, subs[0]))
-        elif kind in (3, 4) and not subs:
-            tgt = s.fields["_result"] if kind == 3 else s.fields["_target"]
+        elif kind in (3, 4, 5) and not subs:
+            tgt = s.fields["_result"] if kind == 3 else s.fields["_target"] if kind == 4 else s.fields["result"]
             if tgt.kind is Temporary:
                 root = tgt.fields["_root"]
                 da = z3.If(root.fields["_maybe_uninitialized"], EMPTY, z3.SetAdd(EMPTY, root.fields["__id__"]))
@@ -274,7 +289,7 @@ class StmtLoop(C.LoopSpec):
             # the real code made recursive calls the ghost semantics does not expect
             it.ctx.prove(QUAL + "/search_invalid_temporaries#loop1#ghost-structure", False)
             da = EMPTY
-        if kind in (3, 4):
+        if kind in (3, 4, 5):
             # every object the statement reads -- also the run-time index of a
             # reference path -- must have gone through the read check
             seen = getattr(it, "checked_reads", [])
@@ -286,6 +301,11 @@ class StmtLoop(C.LoopSpec):
             seen = getattr(it, "checked_reads", [])
             ctrl = s.fields["_test"] if kind == 0 else s.fields["_value"]
             it.ctx.prove(QUAL + "/search_invalid_temporaries#loop1#control-operand-checked", any(ctrl is y for y in seen))
+            if kind == 2:
+                # the subject of a case statement is whatever the user matched on -- e.g. an element selected with a run-time
+                # index; the index is read with it.  (The test of an `if` is always the boolean cast made by the front end,
+                # contract c03_if, so it has no reference path.)
+                it.ctx.prove(QUAL + "/search_invalid_temporaries#loop1#control-operand-index-checked", any(ctrl.fields["__index__"] is y for y in seen))
         it.checked_reads = []
         st["G"] = z3.SetUnion(st["G"], da)
 
@@ -324,11 +344,12 @@ class CaseLoop(C.LoopSpec):
         return True
 
     def next_item(self, it, frame, st):
-        st["cond"] = any_obj(it, "branch_cond")
+        st["cond"] = indexed_obj(it, "branch_cond")
         return (st["cond"], block(it))
 
     def advance(self, it, frame, st):
         it.ctx.prove(QUAL + "/search_invalid_temporaries#loop2#choice-operand-checked", any(st["cond"] is y for y in getattr(it, "checked_reads", [])))
+        it.ctx.prove(QUAL + "/search_invalid_temporaries#loop2#choice-operand-index-checked", any(st["cond"].fields["__index__"] is y for y in getattr(it, "checked_reads", [])))
         g = it.sub_calls[0] if len(it.sub_calls) == 1 else None
         if g is None:
             it.ctx.prove(QUAL + "/search_invalid_temporaries#loop2#ghost-structure", False)
@@ -349,3 +370,57 @@ c.native = False
 c.may_reject = AssertionError
 c.interp_flags = {"symbolic_set_sort": IntS}
 con.cases.append(c)
+
+
+_DA_DESIGNS = '''
+import cohdl
+from cohdl import std, Entity, Port, Bit, BitVector, Unsigned, vhdl
+
+class MatchIndex(Entity):
+    clk = Port.input(Bit)
+    sel = Port.input(Bit)
+    vec = Port.input(BitVector[4])
+    idx = Port.input(Unsigned[2])
+    o = Port.output(Bit, default=False)
+    def architecture(self):
+        @std.sequential(std.Clock(self.clk))
+        def proc():
+            if self.sel:
+                elem = self.vec[self.idx]
+            match elem:
+                case "1":
+                    self.o <<= True
+                case _:
+                    self.o <<= False
+
+class InlineConditional(Entity):
+    clk = Port.input(Bit)
+    a = Port.input(Bit)
+    x = Port.input(Bit)
+    y = Port.input(Bit)
+    o = Port.output(Bit, default=False)
+    def architecture(self):
+        @std.sequential(std.Clock(self.clk))
+        def proc():
+            if self.a:
+                t = f"{vhdl[Bit]:{self.x!r} and {self.y!r}}"
+            self.o <<= t
+
+for E in (MatchIndex, InlineConditional):
+    try:
+        std.VhdlCompiler.to_string(E)
+        print(E.__name__, "ACCEPTED")
+    except Exception as e:
+        print(E.__name__, "REJECTED")
+'''
+
+
+def replay_conditional_definitions(payload):
+    from contracts.c06_extra import _run_design
+
+    rc, out = _run_design(_DA_DESIGNS)
+    return {"reproduced": "ACCEPTED" in out,
+            "detail": "an element indexed by a snapshot taken in one branch used as match subject / an inline-code result defined in one branch and used afterwards: " + out[-80:].replace("\n", "; ")}
+
+
+c.custom_replay = "contracts.c08_temporaries.replay_conditional_definitions"
